@@ -2,6 +2,7 @@
 //! format descriptors of `vmon::spec`, instrumented sources, and a dynamic signal box.
 
 pub mod fmt;
+pub mod cloneconf;
 pub mod iterconf;
 pub mod tree;
 pub mod usrc;
